@@ -294,8 +294,9 @@ def run_check(prop_id: str, tier: str, seed: int) -> int:
         "assumptions": list(getattr(mod, "ASSUMPTIONS", [])),
         "wall_s": round(time.time() - ctx.t0, 2), "violations": violations,
     }
-    (VERIF / "evidence").mkdir(exist_ok=True)
-    (VERIF / "evidence" / f"{prop_id}.json").write_text(json.dumps(evidence, indent=1, default=str))
+    evdir = Path(os.environ.get("VERIF_EVIDENCE_DIR", VERIF / "evidence"))   # seeded-change runs write elsewhere
+    evdir.mkdir(parents=True, exist_ok=True)
+    (evdir / f"{prop_id}.json").write_text(json.dumps(evidence, indent=1, default=str))
     for l in lines:
         print(l)
     print(f"[{prop_id}] tier={tier} seed={seed} obligations={obligations} discharged={discharged} evaluations={ctx.evaluations} "
